@@ -19,7 +19,7 @@ for i in ids:
     r = sh(f'git -C {tree} apply {d}/patch.diff')
     if r.returncode: rows.append((i, meta['property'], 'PATCH DOES NOT APPLY', r.stdout.strip()[:100])); continue
     try:
-        for prop in [meta['property']] + meta.get('also_check', []):
+        for prop in [q for q in [meta['property']] + meta.get('also_check', []) if os.path.exists(os.path.join(ROOT, 'lib', 'p' + q + '.py'))]:
             r = sh(f'./verify check {prop} --tier quick', cwd=ROOT, env=env)
             v = [l for l in r.stdout.splitlines() if l.startswith('VIOLATION')]
             det = [l.strip() for l in r.stdout.splitlines() if l.startswith('  ')][:1]
